@@ -9,6 +9,7 @@ package main
 // A report is a concrete mixture of two different units.
 
 import (
+	"reflect"
 	"fmt"
 	"go/token"
 	"go/types"
@@ -160,6 +161,7 @@ func runUnits(p *Prog) *unitsEngine {
 	e := &unitsEngine{p: p, funcs: p.ModuleFuncs(), val: map[ssa.Value]unit{}, fieldU: map[string]unit{}, retU: map[*ssa.Function]unit{},
 		paramU: map[*ssa.Parameter]unit{}, reports: map[string]unitReport{}, nCtor: map[string]int{}}
 	unitsCache[p] = e
+	e.declareUnitsFromTags()
 	e.detectColumnUnit()
 	for iter := 0; iter < 25; iter++ {
 		changed := false
@@ -177,6 +179,56 @@ func runUnits(p *Prog) *unitsEngine {
 		e.flow(f, true)
 	}
 	return e
+}
+
+// declareUnitsFromTags: integer fields of any struct that travel under an LSP wire name get the unit the
+// protocol gives that name (positions and lengths are in UTF-16 code units, lines are lines) - wherever the
+// struct is declared (go.lsp.dev/protocol or the module's own wire types).
+func (e *unitsEngine) declareUnitsFromTags() {
+	wire := map[string]unit{"character": uUTF16, "line": uLine, "rangeLength": uUTF16,
+		"startCharacter": uUTF16, "endCharacter": uUTF16, "startLine": uLine, "endLine": uLine}
+	seen := map[*types.Package]bool{}
+	var visit func(pk *types.Package, depth int)
+	visit = func(pk *types.Package, depth int) {
+		if pk == nil || seen[pk] || depth > 2 {
+			return
+		}
+		seen[pk] = true
+		if strings.HasPrefix(pk.Path(), modPath) || strings.HasPrefix(pk.Path(), "go.lsp.dev/protocol") {
+			sc := pk.Scope()
+			for _, n := range sc.Names() {
+				tn, ok := sc.Lookup(n).(*types.TypeName)
+				if !ok {
+					continue
+				}
+				st, ok := tn.Type().Underlying().(*types.Struct)
+				if !ok {
+					continue
+				}
+				for i := 0; i < st.NumFields(); i++ {
+					if !isIntType(st.Field(i).Type()) {
+						continue
+					}
+					tag := reflect.StructTag(st.Tag(i)).Get("json")
+					if j := strings.Index(tag, ","); j >= 0 {
+						tag = tag[:j]
+					}
+					if u, ok := wire[tag]; ok {
+						k := fieldKey(tn.Type(), i)
+						if _, declared := fieldUnits[k]; !declared && k != "" {
+							fieldUnits[k] = u
+						}
+					}
+				}
+			}
+		}
+		for _, imp := range pk.Imports() {
+			visit(imp, depth+1)
+		}
+	}
+	for _, pkg := range e.p.Pkgs {
+		visit(pkg.Types, 0)
+	}
 }
 
 // detectColumnUnit reads, from the lexer's own code, how the column counter advances: if some function of
